@@ -48,10 +48,25 @@ TNext == /\ l < Len(Hs[h].events)
 
 TSpec == TInit /\ [][TNext]_tvars
 
+\* The initialisation step: when the chain initialised from the intended state `pre` (through the real
+\* InitGenesis) does not hold that state, the record carries both; what genesis established is not what the
+\* store (and the queries) show.
+InitFails(H) ==
+  IF "pre" \notin DOMAIN H THEN {} ELSE
+  LET a == NormState(H.pre)
+      b == NormState(H.init) IN
+  IF a = b /\ H.junk0 = <<>> THEN {} ELSE
+       {"C19", "C17"}
+  \cup (IF <<a.attesters, a.threshold>> # <<b.attesters, b.threshold>> THEN {"C01", "C13"} ELSE {})
+  \cup (IF Roles(a) # Roles(b) THEN {"C11"} ELSE {})
+  \cup (IF a.used # b.used THEN {"C02"} ELSE {})
+  \cup (IF H.junk0 # <<>> THEN {"C15"} ELSE {})
+
 \* evaluated once per generated step
 Verdict ==
   LET e == last' IN
   PrintT(ToJson([h |-> Hs[h].id, l |-> l',
-                 fails   |-> Fails(st, e.msg, e.faults, e.obs) \cup HistFails(st', hist'),
+                 fails   |-> Fails(st, e.msg, e.faults, e.obs) \cup HistFails(st', hist')
+                             \cup (IF l' = 1 THEN InitFails(Hs[h]) ELSE {}),
                  applies |-> Applied(st, e.msg, e.faults, e.obs)]))
 =============================================================================
